@@ -20,7 +20,8 @@ def main():
                           f"stored chains for epoch types INITIAL,{ts} (store_kernel_states={store}, {up}/3 epochs up-front): index 0 = initial values; per epoch exactly the states after within-epoch "
                           "iterations k, 2k, ...; each stored value written after all kernels of its iteration; one transition info (and kernel state if requested) per transition, unthinned; "
                           "posterior accessor = posterior-epoch part", timeout_s=600 if chk.tier == "quick" else 1200,
-                          env={"TYPES": ts, "NK": "2", "NH": nh, "STORE": str(store), "UPFRONT": str(up), "QG": str(qg), "MINI": str(qi % 2)}, signature=f"chains:{ts}"))
+                          env={"TYPES": ts, "NK": "2", "NH": nh, "STORE": str(store), "UPFRONT": str(up), "QG": str(qg), "MINI": str(qi % 2),
+                               "TRACK": {"10": "p_k1,shared", "01": "p_k0,shared"}.get(nh, "") if qi % 2 == 0 else ""}, signature=f"chains:{ts}"))
     conds.append(Cond("vf.ch.h_chain", "check_append" if chk.tier == "quick" else "check_append_wide",
                       "ListEpochChain.append: for every sequence of chunk sizes and every thinning the kept global indices are {g : (g+1) mod thinning = 0} (chunking invariance)", 600, signature="append"))
     conds.append(Cond("vf.ch.h_chain", "check_manager", "EpochChainManager: per-epoch chains, combine_all in epoch order, posterior filter", 300, signature="manager"))
@@ -32,6 +33,6 @@ def main():
     chk.bounds += ["engine runs: 3 epochs, symbolic durations <= 2,2,3 (thorough 3,3,4), thinning, chunk", "append: <= 3 chunks of <= 3 states, thinning <= 4 (thorough: 4 chunks of 4, thinning 6), all symbolic",
                    "tracked keys: every include / exclude subset of four candidate keys (symbolic masks)"]
     chk.enumerated += [f"epoch types INITIAL,{','.join(map(str, s))} store={st} upfront={up}" for s, nh, st, up in pl]
-    chk.assume("minimize_transition_infos on in every second configuration (the stored info is the kernel info's minimize())", "quantity generators (0-2 recording generators, varied over the configurations) are part of the runs: their keys, call counts and stored outputs are checked", "fake environment contracts as in C07; shapes of tracked quantities are opaque cells (one per time index)", "an empty tracked selection (engine falls back to kernel keys) is unsupported input, not claimed",
+    chk.assume("explicit tracked keys that leave out the key of a history-requesting kernel in some configurations (exactly the requested keys must be stored)", "minimize_transition_infos on in every second configuration (the stored info is the kernel info's minimize())", "quantity generators (0-2 recording generators, varied over the configurations) are part of the runs: their keys, call counts and stored outputs are checked", "fake environment contracts as in C07; shapes of tracked quantities are opaque cells (one per time index)", "an empty tracked selection (engine falls back to kernel keys) is unsupported input, not claimed",
                "chunking invariance is shown for kernels that ignore their key (recording kernels)")
     return chk.finish(technique=TECH)
